@@ -7,7 +7,7 @@ from .. import astutil as A
 from .. import sym as S
 from ..core import AnalysisError, Collector
 from .common import FnCtx, SCtx, sctx
-from .c09 import ERR, OPT_KEEP, octx
+from .c09 import ERR, OPT_KEEP, octx, KNOBS_ALTS
 
 PROP = "C10"
 FLOORS = {"C10.R1": 8, "C10.R2": 6, "C10.R3": 4, "C10.R4": 8, "C10.R5": 2, "C10.R6": 6}
@@ -95,6 +95,41 @@ def _callsig(col, rule="C10.R1"):
                    ("indexed", S.show(state, False), False), ("all", S.show(state, False), True)}
     col.add(rule, "_set_state#assigns-active", ok, sx.loc(sx.fn), "_set_state assigns the requested state to the selected entries only",
             str(sorted(pairs)))
+    # ... each form under its own test: True -> all on, False -> all to the opposite, an int -> that entry, a string -> the entries whose
+    # attribute it fully matches; nothing at all for None
+    attr_p = sx.pnamed("attr") if "attr" in sx.sym.params else None
+    for e in sx.of_kind("store"):
+        for t in S.alts(e.target):
+            if not (t[:1] == ("attr",) and t[2] == "active"):
+                continue
+            conds = sx.conds(e.nid)
+            tags = set()
+            for c in conds:
+                if c == ("cmp", "is", entries, ("const", "True")):
+                    tags.add("is-True")
+                elif c == ("cmp", "is", entries, ("const", "False")):
+                    tags.add("is-False")
+                elif c == ("cmp", "is", entries, ("const", "None")):
+                    tags.add("is-None")
+                elif S.is_call_of(c, ("glob", "isinstance")) and len(c[2]) == 2 and c[2][1] in (("glob", "int"), ("glob", "str")) and \
+                        any(x == entries for x in S.subterms(c[2][0])):
+                    tags.add("is-" + c[2][1][1])
+            who = "all" if t[1] == el else "indexed" if (t[1][:1] == ("sub",) and t[1][1] == lst) else "?"
+            matched = [c for c in conds if S.is_call_of(c, ("attr", ("glob", "re"), "fullmatch"))]
+            val = "state" if e.value == state else "not-state" if e.value == ("uop", "not", state) else "?"
+            want = {("all", "state", False): {"is-True"}, ("all", "not-state", False): {"is-False"},
+                    ("indexed", "state", False): {"is-int"}, ("all", "state", True): {"is-str"}}.get((who, val, bool(matched)))
+            if want is None:
+                continue        # already reported by the set comparison above
+            col.add(rule, f"_set_state#{who}-{val}{'-matched' if matched else ''}-under-its-own-test", tags == want, sx.loc(e),
+                    "each kind of selection (True / False / position / pattern) acts under the test for that kind, and None selects nothing",
+                    f"under {sorted(tags)}, expected {sorted(want)}")
+            for c in matched:
+                a = c[2]
+                okm = len(a) == 2 and any(x == entries for x in S.subterms(a[0])) and \
+                    S.is_call_of(a[1], ("glob", "getattr")) and len(a[1][2]) >= 2 and a[1][2][0] == el and (attr_p is None or a[1][2][1] == attr_p)
+                col.add(rule, "_set_state#pattern-matched-against-the-attribute", okm, sx.loc(e),
+                        "re.fullmatch(pattern=<the entry>, string=getattr(<item>, attr))", S.show(c)[:100])
 
 
 def _pairing(col, rule="C10.R2"):
@@ -141,6 +176,35 @@ def _pairing(col, rule="C10.R2"):
                 "the starting point of the call is logged (and its penalty evaluated) after the temporary enable/disable arguments "
                 "were applied: a target disabled for this call does not contribute to the penalty the accepted points are compared with",
                 f"applied after the starting point was logged: {[(r[0], r[1]) for r in late]}")
+    # every iteration restarts the solver from the knobs as they are now (the user, a reload or a tag may have moved them since the
+    # solver last ran): a stale solver.x makes the next commit jump by more than max_step and overwrites those values
+    SX = ("attr", S.sattr("solver"), "x")
+    sets = [e for e in sx.of_kind("store") if e.target == SX and any(cfg.path_avoiding(e.nid, s_, []) for s_ in solver_steps)]
+    if not sets:
+        col.fail(rule, "Optimize.step#solver-restarts-from-current-knobs", sx.loc(solver_steps[0]),
+                 "before solver.step() the solver's x is set from the current knob values", "no store to self.solver.x ahead of solver.step()")
+    for e in sets:
+        from_knobs = any(e.value == S.mcall(ERR, "_knobs_to_x", k) for k in KNOBS_ALTS)
+        conds = sx.conds(e.nid)
+        verdict = None
+        if not from_knobs:
+            verdict, why = False, f"value {S.show(e.value)[:80]} is not _knobs_to_x(current knob values)"
+        elif not conds:
+            verdict, why = True, "unconditional"
+        elif len(conds) == 1:
+            parts = conds[0][2] if conds[0][:2] == ("bool", "or") else (conds[0],)
+            none_test = ("cmp", "is", SX, ("const", "None"))
+            differs = [p for p in parts if p[:2] == ("uop", "not") and S.is_call_of(p[2]) and p[2][1][:1] == ("attr",) and
+                       p[2][1][2] in ("allclose", "array_equal", "isclose")]
+            same = [p for p in parts if S.is_call_of(p) and p[1][:1] == ("attr",) and p[1][2] in ("allclose", "array_equal", "isclose")]
+            if same:
+                verdict, why = False, "the solver is restarted when the knobs are *unchanged* and left stale when they moved"
+            elif differs and all(p == none_test or p in differs for p in parts):
+                verdict, why = True, "whenever the knobs differ from the solver's x (or the solver has none)"
+        if verdict is None:
+            raise AnalysisError(f"Optimize.step: the condition under which self.solver.x is refreshed is not recognised: {[S.show(c)[:80] for c in conds]} (cannot decide)")
+        col.add(rule, "Optimize.step#solver-restarts-from-current-knobs", verdict, sx.loc(e),
+                "before solver.step() the solver's x is set from the current knob values whenever they differ from it", why)
     # the undo comes last: a reload (take_best) after it would put back the flags logged under the temporary masks
     reloads = [ev.nid for ev, m in sx.calls_some(("call", ("attr", S.SELF, "reload"), S.ANY, S.ANY))]
     if reloads and post:
@@ -438,6 +502,38 @@ def _stale_copy(col, rule="C10.R5"):
                                 "from the ratio array is the argmax of that same array",
                                 f"factor {S.show(x)[:160]}")
     col.add(rule, "MeritFunctionForMatch._clip_to_max_steps#uses-max_step", uses, sx.loc(sx.fn), "the clip compares |step| with the knobs' max_step", "")
+    # the step-by-step form `if |out[i]| > max_i: out *= max_i / |out[i]|`: direction of the test and of the factor
+    fn0 = repo.method("MeritFunctionForMatch", "_clip_to_max_steps")
+    maxnames = {t.id for a in A.walk(fn0) if isinstance(a, ast.Assign) and any(isinstance(x, ast.Attribute) and x.attr == "max_step" for x in A.walk(a.value))
+                for t in a.targets if isinstance(t, ast.Name)}
+
+    def _is_abs(e):
+        return any(isinstance(x, ast.Call) and (A.dotted(x.func) or "").split(".")[-1] in ("abs", "fabs", "absolute") for x in A.walk(e))
+
+    def _is_max(e):
+        return any((isinstance(x, ast.Name) and x.id in maxnames) or (isinstance(x, ast.Attribute) and x.attr == "max_step") for x in A.walk(e))
+    for iff in (x for x in A.walk(fn0) if isinstance(x, ast.If)):
+        augs = [a for st_ in iff.body for a in A.walk(st_) if isinstance(a, ast.AugAssign) and isinstance(a.op, (ast.Mult, ast.Div))]
+        t = iff.test
+        negated = False
+        while isinstance(t, ast.UnaryOp) and isinstance(t.op, ast.Not):
+            t, negated = t.operand, not negated
+        if not augs or not (isinstance(t, ast.Compare) and len(t.ops) == 1 and isinstance(t.ops[0], (ast.Gt, ast.GtE, ast.Lt, ast.LtE))):
+            continue
+        l, r = t.left, t.comparators[0]
+        if not ((_is_abs(l) and _is_max(r) and not _is_max(l)) or (_is_abs(r) and _is_max(l) and not _is_max(r))):
+            continue
+        abs_is_larger = (_is_abs(l) and isinstance(t.ops[0], (ast.Gt, ast.GtE))) or (_is_abs(r) and isinstance(t.ops[0], (ast.Lt, ast.LtE)))
+        abs_is_larger = abs_is_larger != negated
+        col.add(rule, "MeritFunctionForMatch._clip_to_max_steps#rescales-when-step-exceeds-max", abs_is_larger, m.loc(iff),
+                "the step is rescaled when |step_i| exceeds max_step_i (not when it is below)", A.src(t))
+        for a in augs:
+            f = a.value
+            if isinstance(f, ast.BinOp) and isinstance(f.op, (ast.Div, ast.Mult)) and ((_is_max(f.left) and _is_abs(f.right)) or (_is_abs(f.left) and _is_max(f.right))):
+                shrink = isinstance(f.op, ast.Div) and ((_is_max(f.left) and isinstance(a.op, ast.Mult)) or (_is_abs(f.left) and isinstance(a.op, ast.Div)))
+                col.add(rule, "MeritFunctionForMatch._clip_to_max_steps#factor-shrinks-to-max", shrink, m.loc(a),
+                        "the rescaling multiplies by max_step_i/|step_i| (or divides by its inverse), bringing the offending entry down to its max_step",
+                        A.src(a))
     sx = octx(repo, "JacobianSolver", "step")
     clips = sx.calls_some(("call", ("attr", S.V("f"), "_clip_to_max_steps"), (S.V("s"),), ()))
     zeros = S.fcall(("attr", NP, "zeros"), S.fcall("len", S.sattr("x")))
